@@ -416,7 +416,8 @@ def announce_case_kv(report, drv, rng, tag, contended, evs=None):
         link.attach(st.storage)
         threading.Thread.start(st.writer)              # the real thread (KVStore leaves it unstarted)
         submitted = []
-        evs = evs or _announce_events(rng, rng.randint(1, 3))
+        # while the lock is held elsewhere the submissions pile up in the writer's queue: a burst of two to five
+        evs = evs or _announce_events(rng, rng.randint(2, 5) if contended else rng.randint(1, 3))
         have, release = threading.Event(), threading.Event()
 
         def other_writer():
@@ -533,7 +534,7 @@ def run(report, tier, seed):
     loop.close()
     # storage glue on both backends (their own event loops)
     try:
-        for k in range(4 if tier == "quick" else 40):
+        for k in range(6 if tier == "quick" else 60):
             announce_case_sql(report, drv, rng, k)
             announce_case_kv(report, drv, rng, k, contended=True)
             announce_case_kv(report, drv, rng, k, contended=False)
